@@ -16,15 +16,15 @@ include hrt
 
 /-- the extended entry point with the context read back from an archive = with the context that was written -/
 theorem reloaded_context_same_effect (E : Env) (K : CharClass) (ctx : List (Name × CSet)) (model : List Char)
-    (archived : List (List Char)) (hv : ∀ e ∈ ctx, ValidLabel e.1) (formulas : List (List Char)) :
+    (archived : List (List Char)) (formulas : List (List Char)) :
     Api.extendedDirty E K E.G.unit0 (load deser (entries ser ctx model archived)) formulas
       = Api.extendedDirty E K E.G.unit0 ctx formulas := by
-  rw [bundle_roundtrip ser deser hrt ctx model archived hv]
+  rw [bundle_roundtrip ser deser hrt ctx model archived]
 
 /-- the same for the tool run with `-e <archive>` -/
 theorem reloaded_context_same_effect_tool (net : Nat → Env) (K : CharClass) (ctx : List (Name × CSet)) (model : List Char)
-    (archived : List (List Char)) (hv : ∀ e ∈ ctx, ValidLabel e.1) (text : List Char) :
+    (archived : List (List Char)) (text : List Char) :
     Cli.analyse net K true (load deser (entries ser ctx model archived)) text = Cli.analyse net K true ctx text := by
-  rw [bundle_roundtrip ser deser hrt ctx model archived hv]
+  rw [bundle_roundtrip ser deser hrt ctx model archived]
 
 end Hctl.C16
